@@ -50,6 +50,8 @@ void prt_followups(ArtFile& a, Stats& st, uint32_t plan) {
 	size_t lens[4] = {0, 100, 14 + 40 + 1024 + 64, 14 + 40 + 1024 + 70000};
 	std::string pix = scratch_path("c11_pix.bmp"), out = scratch_path("c11_sprite.bmp");
 	std::vector<size_t> idxs; for (size_t i = 0; i < n && i < 20; ++i) idxs.push_back(i);
+	// and the records an extraction would be most dangerous for, wherever they sit in the table: a palette index at or beyond the palette count
+	for (size_t i = 0, found = 0; i < n && found < 6; ++i) if (a.imageMetas[i].paletteIndex >= a.palettes.size()) { idxs.push_back(i); ++found; }
 	if (n) idxs.push_back(n - 1);
 	idxs.push_back(n); idxs.push_back(n + 1); idxs.push_back(size_t(~0ull));
 	for (unsigned li = 0; li < 4; ++li) {
@@ -217,6 +219,15 @@ void run_sweep(Stats& st) {
 		refgfx::LPrt p; for (unsigned i = 0; i < np; ++i) { std::array<std::array<uint8_t, 4>, 256> pal{}; p.palettes.push_back(pal); p.palHeaders.push_back({}); }
 		p.images.push_back({scan, 0, height, width, 0, uint16_t(pidx)}); p.images.push_back({4, 0, 1, 4, 0, uint16_t(np ? 0 : pidx)});
 		load_case(LPrt, refgfx::encode_prt(p), st, 0xFF, "prt_degenerate");
+	}
+	// PRT image tables beyond 65536 records with one foreign palette index late in the table (a validation loop with a narrow counter would
+	// not reach it): refused, or every follow-up - extraction of that very record included - is safe
+	for (uint32_t n : {65537u, 70000u, 131073u}) for (uint32_t r : {n - 1, 65536u, 1u}) {
+		if (!sw("prt_many_images", n, r)) continue;
+		refgfx::LPrt p; std::array<std::array<uint8_t, 4>, 256> pal{}; p.palettes = {pal}; p.palHeaders = {{}};
+		for (uint32_t i = 0; i < n; ++i) p.images.push_back({4, i % 50, 1, 3, 0, 0});
+		p.images[r].paletteIndex = uint16_t(r & 1 ? 0xFFFF : 1);
+		load_case(LPrt, refgfx::encode_prt(p), st, 0x4, "prt_many_images");
 	}
 	// a STATED image size that agrees with the dimensions while the file-size field / the file itself carry fewer (or no) pixel bytes: whatever
 	// is accepted must be safe to flip and save (the field a loader checks and the quantity that sizes its pixel container must not come apart)
